@@ -119,3 +119,11 @@ package actionlint
 //@   props C09 C10
 //@   anchor
 //@   body_calls (*ExprSemanticsChecker).ensureVarsCopied iff !old(sema.githubVarCopied)
+
+// RuleRunnerLabel: the table of OS labels seen is per job: fresh when the labels of a job are compared,
+// gone afterwards
+//@ func (*RuleRunnerLabel).VisitJobPre
+//@   props C09 C02
+//@   anchor
+//@   ensures n.RunsOn != nil && len(n.RunsOn.Labels) != 1 ==> rule.compats == nil
+//@   at_call (*RuleRunnerLabel).checkLabelAndConflict: fresh(rule.compats)
